@@ -242,6 +242,25 @@ PROPS = {
         "assumptions": COMMON_ASSUME,
         "trusted_base": ["modelled, not verified: the pretty crate's layout engine, handlebars templates of the Rust binding, the javascript / typescript / motoko / rust printers above the modelled functions (analysis.rs order, identifier escaping, doc-comment escaping, quoting shape)", 'node 20 evaluating the generated JavaScript against harness/js/idl_stub.js (an abstract IDL builder written for this check)', "Rust's char::escape_debug: assumed only through the shape esc_ok, which p.c19.escape_debug establishes exhaustively on every run"],
     },
+    "C18": {
+        "claim": "Every generated binding is COMPILED and RUN: one scratch crate per program (24 quick / 120 thorough random programs over named labels, recursion, "
+                 "references, nested anonymous records / variants / functions / services at several paths, service constructors; plus directed programs with Rust "
+                 "keywords, non-ASCII labels, recursion needing Box, Result-shaped variants) in one cargo workspace under /verif/work/c18, built offline with --keep-going; "
+                 "each crate prints, for every item the binding defines and for every method's argument and result tuple, the Candid type the derive macro computes "
+                 "(TypeContainer-free conversion of CandidType::ty()). The MODEL decides structural equality (eq_dec, proved correct for all environments and types) of "
+                 "each source definition with the item named after it, and of each method's argument / result tuple with the source method's; a binding that does "
+                 "not compile, an item that is missing, or a type that differs is a violation with the program as replay.",
+        "note": "That rustc accepts the text and what the derive macro computes are outside any model: this property is decided per generated program by compiling and "
+                "running, the theorem covers only the equality decision. Known findings (recorded, keyed): three name collisions (the property's a_b.c / a.b_c example; "
+                "fooBar / foo_bar; an anonymous type named like a definition), numeric non-positional labels (printed as _N_, hashed by name), one-field tuples.",
+        "props_file": "props/C18.v",
+        "shards": (1, 1),
+        "gen_timeout": 3000,
+        "rule": "cases: per program one case per reachable definition and two per method with arguments / results. All non-trivial.",
+        "assumptions": COMMON_ASSUME,
+        "trusted_base": ["rustc and cargo (stable toolchain, offline), candid_derive as compiled, the scratch crate template in harness/src/ops/c18.rs (prints CandidType::ty() of each item)",
+                         "the mapping from a source definition to the item compared with it is by the Pascal-cased name"],
+    },
     "C19": {
         "claim": "Predicates on generated checked programs (with / without main service, service constructors, keyword / quoted / non-ASCII names) for the "
                  "JavaScript, TypeScript, Motoko (identifier method names, the documented precondition) and Rust generators: each returns (a panic is caught and "
